@@ -385,6 +385,7 @@ func (b *Reader) ReadLine() (line []byte, isPrefix bool, err error) {
 				panic("bfe_bufio: tried to rewind past start of buffer")
 			}
 			b.r--
+			b.TotalRead--
 			line = line[:len(line)-1]
 		}
 		return line, true, nil
